@@ -33,7 +33,7 @@ def gen_policy(rng, sim, maxdepth=2, p_star=0.08, p_bad=0.04):
 
 
 DEFAULT_W = dict(add_dim=4, del_dim=2, add_attr=8, del_attr=5, rename=3, disable=4, upd=10, mpk=2, rekey=8, prune=4,
-                 keygen=10, refresh=10, encaps=12, recaps=3, decaps=15, rt=4)
+                 keygen=10, refresh=10, encaps=12, recaps=3, decaps=15, rt=4, snap=1, restore=1)
 
 
 def gen_history(rng, w=None, nsteps=(8, 45), final_pairs=True, names_extra=('e', 'f'), multibyte=False):
@@ -88,6 +88,8 @@ def gen_history(rng, w=None, nsteps=(8, 45), final_pairs=True, names_extra=('e',
             j = rng.randrange(sim.nmpk) if rng.random() < 0.3 else sim.nmpk - 1
             out.append(f'RC {j} {rng.randrange(sim.nenc)}'); sim.nenc += 1
         elif op == 'decaps' and sim.nusk and sim.nenc: out.append(f'DE {rng.randrange(sim.nusk)} {rng.randrange(sim.nenc)}')
+        elif op == 'snap': out.append('SNAP'); sim.nsnap = getattr(sim, 'nsnap', 0) + 1
+        elif op == 'restore' and getattr(sim, 'nsnap', 0): out.append(f'REST {rng.randrange(sim.nsnap)}')
         elif op == 'rt':
             k = rng.choice(['MSK', 'MPK', 'USK', 'ENC'])
             if k == 'MSK': out.append('RT MSK')
@@ -118,8 +120,8 @@ def run_both(histories, config='default', model_mode='fixed'):
 
 # ------------------------------------------------------------------------------------------- comparison
 
-TOK_I = re.compile(r'\b([spi])([0-9a-f]{16})\b')
-TOK_M = re.compile(r'\b([ti])(\d+)\b')
+TOK_I = re.compile(r'\b([spigk])([0-9a-f]{16})\b')
+TOK_M = re.compile(r'\b([tigk])(\d+)\b')
 
 
 class Bij:
@@ -142,7 +144,7 @@ def cmp_positional(a, b, bij):
     sa = TOK_I.sub('#', a); sb = TOK_M.sub('#', b)
     if sa != sb or len(ta) != len(tb): return False
     for (ns, hi), (nm, tm) in zip(ta, tb):
-        if ns == 'i' and nm != 'i': return False
+        if ns in 'igk' and nm != ns: return False
         if ns in 'sp' and nm != 't': return False
         if not bij.bind(ns, hi, tm): return False
     return True
@@ -214,15 +216,15 @@ def generic_oracles(script, out):
         msk = parts[1] if len(parts) > 1 else None
         if ob == 'ERR' and last_msk is not None and msk != last_msk:
             v.append((ln, 'C10', 'master key changed by a failed call'))
-        if f[0] == 'RF' and ob == 'ERR' and len(parts) > 2:
-            k = int(f[1])
+        if f[0] == 'RF' and ob == 'ERR' and len(parts) > 2 and nusk:
+            k = int(f[1]) % nusk
             if k in last_usk and last_usk[k] != parts[2]: v.append((ln, 'C10', 'user key changed by a failed refresh'))
         if f[0] == 'KG' and ob == 'OK': last_usk[nusk] = parts[2]; nusk += 1
-        if f[0] == 'RF' and ob == 'OK': last_usk[int(f[1])] = parts[2]
+        if f[0] == 'RF' and ob == 'OK' and nusk: last_usk[int(f[1]) % nusk] = parts[2]
         if f[0] == 'SETUP': last_usk = {}; nusk = 0
         if ob in ('DE',): pass
         # read-only operations must not change the master key at all
-        if f[0] in ('DE', 'EN', 'RC', 'MPK', 'RT') and last_msk is not None and msk is not None and msk != last_msk and f[0] != 'RT':
+        if f[0] in ('DE', 'EN', 'RC', 'MPK', 'RT', 'SNAP') and last_msk is not None and msk is not None and msk != last_msk and f[0] != 'RT':
             v.append((ln, 'C10', f'{f[0]} changed the master key'))
         last_msk = msk
     return v
